@@ -7,7 +7,14 @@ namespace Rsj.Parser
 def SpanOK (toks : List Token) (lo hi : Nat) (sp : Span) : Prop :=
   lo ≤ sp.start ∧ sp.start ≤ sp.stop ∧ sp.stop ≤ hi ∧ IsStart toks sp.start ∧ IsStop toks sp.stop
 
+/-- end of the last of two consecutive expressions the second of which is optional -/
+def lastStop (a : Expr) : Option Expr → Nat
+  | none => a.span.stop
+  | some b => b.span.stop
+
 /-
+  For forms that begin (end) with a subexpression the node's span starts (ends) exactly where
+  that subexpression starts (ends); forms that begin (end) with a token start (end) at a token.
   `X.WF toks lo hi`: every span occurring in `X` satisfies `SpanOK` relative to the span of the
   closest enclosing expression node (`lo hi` for the outermost ones).
 -/
@@ -26,40 +33,50 @@ mutual
     | .arrayComp e spec sp, lo, hi =>
       SpanOK toks lo hi sp ∧ e.WF toks sp.start sp.stop ∧ WFSpecs toks spec sp.start sp.stop
     | .field e name sp, lo, hi =>
-      SpanOK toks lo hi sp ∧ e.WF toks sp.start sp.stop ∧ SpanOK toks sp.start sp.stop name.span
+      SpanOK toks lo hi sp ∧ e.WF toks sp.start sp.stop ∧ SpanOK toks sp.start sp.stop name.span ∧
+        e.span.start = sp.start ∧ name.span.stop = sp.stop
     | .index e i sp, lo, hi =>
-      SpanOK toks lo hi sp ∧ e.WF toks sp.start sp.stop ∧ i.WF toks sp.start sp.stop
+      SpanOK toks lo hi sp ∧ e.WF toks sp.start sp.stop ∧ i.WF toks sp.start sp.stop ∧
+        e.span.start = sp.start
     | .slice e i1 i2 i3 sp, lo, hi =>
       SpanOK toks lo hi sp ∧ e.WF toks sp.start sp.stop ∧ WFOpt toks i1 sp.start sp.stop ∧
-        WFOpt toks i2 sp.start sp.stop ∧ WFOpt toks i3 sp.start sp.stop
+        WFOpt toks i2 sp.start sp.stop ∧ WFOpt toks i3 sp.start sp.stop ∧ e.span.start = sp.start
     | .superField ssp name sp, lo, hi =>
-      SpanOK toks lo hi sp ∧ SpanOK toks sp.start sp.stop ssp ∧ SpanOK toks sp.start sp.stop name.span
+      SpanOK toks lo hi sp ∧ SpanOK toks sp.start sp.stop ssp ∧ SpanOK toks sp.start sp.stop name.span ∧
+        ssp.start = sp.start ∧ name.span.stop = sp.stop
     | .superIndex ssp i sp, lo, hi =>
-      SpanOK toks lo hi sp ∧ SpanOK toks sp.start sp.stop ssp ∧ i.WF toks sp.start sp.stop
+      SpanOK toks lo hi sp ∧ SpanOK toks sp.start sp.stop ssp ∧ i.WF toks sp.start sp.stop ∧
+        ssp.start = sp.start
     | .call f args _ sp, lo, hi =>
-      SpanOK toks lo hi sp ∧ f.WF toks sp.start sp.stop ∧ WFArgs toks args sp.start sp.stop
+      SpanOK toks lo hi sp ∧ f.WF toks sp.start sp.stop ∧ WFArgs toks args sp.start sp.stop ∧
+        f.span.start = sp.start
     | .ident i sp, lo, hi => SpanOK toks lo hi sp ∧ i.span = sp
     | .local_ binds body sp, lo, hi =>
-      SpanOK toks lo hi sp ∧ WFBinds toks binds sp.start sp.stop ∧ body.WF toks sp.start sp.stop
+      SpanOK toks lo hi sp ∧ WFBinds toks binds sp.start sp.stop ∧ body.WF toks sp.start sp.stop ∧
+        body.span.stop = sp.stop
     | .ite_ c t e sp, lo, hi =>
       SpanOK toks lo hi sp ∧ c.WF toks sp.start sp.stop ∧ t.WF toks sp.start sp.stop ∧
-        WFOpt toks e sp.start sp.stop
+        WFOpt toks e sp.start sp.stop ∧ lastStop t e = sp.stop
     | .binary l _ r sp, lo, hi =>
-      SpanOK toks lo hi sp ∧ l.WF toks sp.start sp.stop ∧ r.WF toks sp.start sp.stop
-    | .unary _ e sp, lo, hi => SpanOK toks lo hi sp ∧ e.WF toks sp.start sp.stop
+      SpanOK toks lo hi sp ∧ l.WF toks sp.start sp.stop ∧ r.WF toks sp.start sp.stop ∧
+        l.span.start = sp.start ∧ r.span.stop = sp.stop
+    | .unary _ e sp, lo, hi => SpanOK toks lo hi sp ∧ e.WF toks sp.start sp.stop ∧ e.span.stop = sp.stop
     | .objExt e o osp sp, lo, hi =>
       SpanOK toks lo hi sp ∧ e.WF toks sp.start sp.stop ∧ SpanOK toks sp.start sp.stop osp ∧
-        o.WF toks osp.start osp.stop
+        o.WF toks osp.start osp.stop ∧ e.span.start = sp.start ∧ osp.stop = sp.stop
     | .func params body sp, lo, hi =>
-      SpanOK toks lo hi sp ∧ WFParams toks params sp.start sp.stop ∧ body.WF toks sp.start sp.stop
+      SpanOK toks lo hi sp ∧ WFParams toks params sp.start sp.stop ∧ body.WF toks sp.start sp.stop ∧
+        body.span.stop = sp.stop
     | .assert_ a body sp, lo, hi =>
-      SpanOK toks lo hi sp ∧ a.WF toks sp.start sp.stop ∧ body.WF toks sp.start sp.stop
-    | .import_ e sp, lo, hi => SpanOK toks lo hi sp ∧ e.WF toks sp.start sp.stop
-    | .importStr e sp, lo, hi => SpanOK toks lo hi sp ∧ e.WF toks sp.start sp.stop
-    | .importBin e sp, lo, hi => SpanOK toks lo hi sp ∧ e.WF toks sp.start sp.stop
-    | .error_ e sp, lo, hi => SpanOK toks lo hi sp ∧ e.WF toks sp.start sp.stop
+      SpanOK toks lo hi sp ∧ a.WF toks sp.start sp.stop ∧ body.WF toks sp.start sp.stop ∧
+        body.span.stop = sp.stop
+    | .import_ e sp, lo, hi => SpanOK toks lo hi sp ∧ e.WF toks sp.start sp.stop ∧ e.span.stop = sp.stop
+    | .importStr e sp, lo, hi => SpanOK toks lo hi sp ∧ e.WF toks sp.start sp.stop ∧ e.span.stop = sp.stop
+    | .importBin e sp, lo, hi => SpanOK toks lo hi sp ∧ e.WF toks sp.start sp.stop ∧ e.span.stop = sp.stop
+    | .error_ e sp, lo, hi => SpanOK toks lo hi sp ∧ e.WF toks sp.start sp.stop ∧ e.span.stop = sp.stop
     | .inSuper e ssp sp, lo, hi =>
-      SpanOK toks lo hi sp ∧ e.WF toks sp.start sp.stop ∧ SpanOK toks sp.start sp.stop ssp
+      SpanOK toks lo hi sp ∧ e.WF toks sp.start sp.stop ∧ SpanOK toks sp.start sp.stop ssp ∧
+        e.span.start = sp.start ∧ ssp.stop = sp.stop
   def WFExprs (toks : List Token) : List Expr → Nat → Nat → Prop
     | [], _, _ => True
     | e :: es, lo, hi => e.WF toks lo hi ∧ WFExprs toks es lo hi
@@ -89,7 +106,8 @@ mutual
     | .expr e sp, lo, hi => SpanOK toks lo hi sp ∧ e.WF toks sp.start sp.stop
   def Assert.WF (toks : List Token) : Assert → Nat → Nat → Prop
     | .mk sp cond msg, lo, hi =>
-      SpanOK toks lo hi sp ∧ cond.WF toks sp.start sp.stop ∧ WFOpt toks msg sp.start sp.stop
+      SpanOK toks lo hi sp ∧ cond.WF toks sp.start sp.stop ∧ WFOpt toks msg sp.start sp.stop ∧
+        lastStop cond msg = sp.stop
   def Bind.WF (toks : List Token) : Bind → Nat → Nat → Prop
     | .mk name hasParams params psp value, lo, hi =>
       SpanOK toks lo hi name.span ∧
